@@ -188,7 +188,7 @@ def random_case(args) -> List[Tuple[str, Dict[str, Any], str]]:
 
     def wsig(pr):
         cls = sorted({wclass_f(x[2], lo, hi) for x in exp_edges.get(pr, [])})
-        return {"feature": "weight:" + "+".join(cls), "zero_in_bounds": lo <= 0 <= hi, "eps": bool(eps)}
+        return {"feature": "weight:" + "+".join(cls), "zero_in_bounds": lo <= 0 <= hi}
 
     fails: List[Tuple[str, Dict[str, Any], str]] = []
 
@@ -210,10 +210,12 @@ def random_case(args) -> List[Tuple[str, Dict[str, Any], str]]:
         seen = set()
         for k, rec in (g.get("edges") or {}).items():
             pr = tuple(sorted((rec.get("src"), rec.get("dst"))))
-            if pr in seen or pr not in exp_edges:
+            tag = pr if (pr[0] and pr[1]) else (pr, rec.get("rel"))
+            if tag in seen or pr not in exp_edges:
                 fails.append(("RestoreGel", {"feature": "edge-extra", "ids": "random", "empty_id": "" in pr}, f"{tag}: unexpected edge {k!r} {pr}"))
                 continue
             seen.add(pr)
+            seen.add(tag)
             w = rec.get("weight")
             if not any(isinstance(w, float) and w == aw and rec.get("rel") == ar for aw, ar, _ in exp_edges[pr]):
                 fails.append(("RestoreGel", wsig(pr), f"{tag}: edge {k!r} weight {w!r}, oracle admits {[(a, x) for a, _, x in exp_edges[pr]]} (bounds [{lo},{hi}] eps {eps})"))
